@@ -32,6 +32,10 @@ type solveCfg struct {
 	workers  int
 	keep     bool
 	noRetry  bool
+	// crossCheck (thorough tier): every discharged obligation is given to the
+	// other solvers as well; a solver that answers sat where another answered
+	// unsat is a disagreement, reported as an error (never silently accepted)
+	crossCheck bool
 }
 
 func buildQuery(fr *FuncResult, o *Obligation, values []string) string {
@@ -100,6 +104,7 @@ func solveOne(cfg *solveCfg, fr *FuncResult, o *Obligation, values []string) {
 	if st == "unsat" || st == "sat" || o.Cover {
 		// vacuity covers only need "not unsat": one quick attempt is enough
 		o.Status, o.Solver, o.Model, o.Secs = st, solvers[0].name, out, time.Since(t0).Seconds()
+		crossCheck(cfg, o, file)
 		if !cfg.keep && st == "unsat" {
 			os.Remove(file)
 		}
@@ -140,8 +145,41 @@ func solveOne(cfg *solveCfg, fr *FuncResult, o *Obligation, values []string) {
 		final.out = strings.Join(errs, "\n")
 	}
 	o.Status, o.Solver, o.Model, o.Secs = final.st, final.solver, final.out, time.Since(t0).Seconds()
+	crossCheck(cfg, o, file)
 	if !cfg.keep && o.Status == "unsat" {
 		os.Remove(file)
+	}
+}
+
+// crossCheck (thorough tier): an unsat answer is confirmed with the other
+// solvers. A contradicting sat answer turns the obligation into an error.
+func crossCheck(cfg *solveCfg, o *Obligation, file string) {
+	if !cfg.crossCheck || o.Cover || o.Status != "unsat" || o.Solver == "trivial" {
+		return
+	}
+	type r struct{ st, solver string }
+	ch := make(chan r, len(solvers))
+	n := 0
+	for _, s := range solvers {
+		if s.name == o.Solver {
+			continue
+		}
+		n++
+		s := s
+		go func() {
+			st, _, _ := runSolver(context.Background(), s, file, min(cfg.timeoutS, 30))
+			ch <- r{st, s.name}
+		}()
+	}
+	for i := 0; i < n; i++ {
+		x := <-ch
+		switch x.st {
+		case "unsat":
+			o.Confirmed = append(o.Confirmed, x.solver)
+		case "sat":
+			o.Status = "error"
+			o.Model = "solver disagreement: " + o.Solver + " answered unsat, " + x.solver + " answered sat"
+		}
 	}
 }
 
